@@ -8,7 +8,7 @@
   OverflowError of an out-of-range int escape (lead L4), or when `pid`/`ppid` stop being valid
   `as_dict` names of the kinds the model assumes.
 -/
-import PsutilModel.Proofs.C04Step
+import PsutilModel.Proofs.C04Sim
 import PsutilModel.Model.C04Gen
 namespace Psutil.C04
 open Spec
@@ -361,6 +361,254 @@ example : trace cfg (St.init ⟨[⟨9, 109, false, false, .ok⟩, ⟨1, 101, fal
       [.iter .none, .next 0 [.exit 5], .next 0 [], .next 0 []]
     = [.gen 0, .yield 0 1 none, .yield 1 9 none, .stop] := by decide
 
+/-! ## `process_iter()` — the cache, for every SEQUENTIAL history -/
+
+/-- executable check of `OpOK` (for the non-vacuity examples) -/
+def idleExcept (gens : List Gen) (g : Option Nat) : Bool :=
+  (List.range gens.length).all fun j =>
+    (g == some j) || match gens[j]? with
+      | some gen => !isRun gen
+      | none => true
+
+def noReuseB (c : Cfg) : Attrs → Bool
+  | .none => true
+  | .names l => (namesOf c l).all fun n => !(kindOf c n == AttrKind.reuse)
+
+def opOKb (c : Cfg) (s : St) : Op → Bool
+  | .next g _ =>
+    idleExcept s.gens (some g) &&
+      match s.gens[g]? with
+      | some gen => noReuseB c gen.attrs && (!(gen.st == GSt.fresh) || !s.k.procs.isEmpty)
+      | none => true
+  | .cacheClear => idleExcept s.gens none
+  | .pids => !s.k.procs.isEmpty
+  | .pidExists _ => !s.k.procs.isEmpty
+  | _ => true
+
+def seqHistB (c : Cfg) : St → List Op → Bool
+  | _, [] => true
+  | s, op :: ops => opOKb c s op && seqHistB c (step c s op).1 ops
+
+theorem idleExcept_sound {gens : List Gen} {g : Option Nat} (h : idleExcept gens g = true) :
+    ∀ (j : Nat) (gen : Gen), g ≠ some j → gens[j]? = some gen → isRun gen = false := by
+  intro j gen hj hg
+  have hlt : j < gens.length := (List.getElem?_eq_some_iff.mp hg).1
+  have := (List.all_eq_true.mp h) j (List.mem_range.mpr hlt)
+  simp only [hg, Bool.or_eq_true, beq_iff_eq, Bool.not_eq_true'] at this
+  rcases this with h1 | h1
+  · exact absurd h1 hj
+  · exact h1
+
+theorem noReuseB_sound {c : Cfg} {a : Attrs} (h : noReuseB c a = true) : NoReuse c a := by
+  cases a with
+  | none => trivial
+  | names l =>
+    intro n hn
+    have := (List.all_eq_true.mp h) n hn
+    intro e
+    simp [e] at this
+
+theorem opOKb_sound {c : Cfg} {s : St} {op : Op} (h : opOKb c s op = true) : OpOK c s op := by
+  cases op with
+  | next g mid =>
+    simp only [opOKb, Bool.and_eq_true] at h
+    refine ⟨fun j gen hj hg => idleExcept_sound h.1 j gen (by simpa using fun e => hj e.symm) hg, ?_⟩
+    intro gen hg
+    have h2 := h.2
+    rw [hg] at h2
+    simp only [Bool.and_eq_true, Bool.or_eq_true, Bool.not_eq_true', beq_eq_false_iff_ne, ne_eq,
+      List.isEmpty_eq_false_iff] at h2
+    refine ⟨noReuseB_sound h2.1, fun hf => ?_⟩
+    rcases h2.2 with h3 | h3
+    · exact absurd hf h3
+    · exact h3
+  | cacheClear =>
+    exact fun j gen hg => idleExcept_sound (g := none) h j gen (by simp) hg
+  | pids => simpa [opOKb] using h
+  | pidExists n => simpa [opOKb] using h
+  | kev e => trivial
+  | iter a => trivial
+  | close g => trivial
+  | isRunning r => trivial
+
+theorem seqHistB_sound (c : Cfg) : ∀ (h : List Op) (s : St), seqHistB c s h = true → SeqHist c s h
+  | [], _, _ => trivial
+  | op :: ops, s, h => by
+    simp only [seqHistB, Bool.and_eq_true] at h
+    exact ⟨opOKb_sound h.1, seqHistB_sound c ops _ h.2⟩
+
+/-- **C04_refines_sequential.** For EVERY sequential history over a well-formed table — any
+    kernel events (spawn, exit, PID reuse, zombies, threads) between and during iterations,
+    partially consumed and closed generators, `cache_clear()`, `is_running()` on any object,
+    `pids()`/`pid_exists()` anywhere, `attrs` of any names that do not start with
+    `_raise_if_pid_reused()` — every output of the model (PID, object identity, info keys,
+    StopIteration, booleans, lists) is exactly the output of the shared-cache specification
+    machine of Spec/C04.lean: the object yielded for a PID is the one cached for it, entries of
+    PIDs that are no longer listed are dropped, entries flagged by `is_running()` are replaced by
+    fresh objects, `cache_clear()` empties the cache. *Sequential* (`SeqHist`): a generator is
+    advanced only while no other one is suspended, and `cache_clear()` is called only while none
+    is suspended; outside that region see the counterexamples below. -/
+theorem C04_refines_sequential (k : Kernel) (hk : k.WF) (h : List Op) (hs : SeqHist cfg (St.init k) h) :
+    strace cfg.validNames cfg.noAccessAttrs (SSt.init k) h = (trace cfg (St.init k) h).map some := by
+  rw [← abs_init]
+  exact trace_sim cfg cfg_good.drain cfg_good.range h _ (init_seqInv k hk) hs
+
+/-! The lemmas below say what the specification machine's cache does — by
+    `C04_refines_sequential` that is what the code does on every sequential history. -/
+
+/-- the cache an iteration starts with (the expression used by `Spec.sstep`) -/
+def startCache (cache : PMap) (flagged listed : List Nat) : PMap :=
+  (cache.filter fun e => !flagged.contains e.1).filter fun e => listed.contains e.1
+
+/-- **C04_identity_stable_sequential / C04_reused_replaced (cache level).** When an iteration
+    starts, the entry of PID `p` is kept — the very same object — iff `p` is still listed and was
+    not flagged as recycled by `is_running()`; otherwise it is dropped (a gone PID) or will be
+    replaced by a fresh object (a flagged one). -/
+theorem C04_start_cache (cache : PMap) (flagged listed : List Nat) (p : Nat) :
+    (startCache cache flagged listed).get p
+      = if listed.contains p && !flagged.contains p then cache.get p else none := by
+  unfold startCache
+  rw [get_filter _ (fun q => listed.contains q), get_filter _ (fun q => !flagged.contains q)]
+  cases listed.contains p <;> cases flagged.contains p <;> simp
+
+/-- **C04_identity_stable_sequential (visit level).** At a PID that has a cached object the
+    iteration yields that very object (unless `info` has to be filled from a process that has
+    vanished); at a PID without one it yields a reference no object had before. -/
+theorem C04_spec_visit (valid noAccess : List String) (g : Nat) (ss : SSt) (p : Nat) (rest : List Nat) :
+    (∀ r, ss.cache.get p = some r →
+      (svisit valid noAccess .none g ss (p :: rest)).2 = .yield r p none)
+    ∧ (∀ b, ss.cache.get p = none → ss.k.statStart p = some b →
+      (svisit valid noAccess .none g ss (p :: rest)).2 = .yield ss.objs.length p none
+      ∧ (svisit valid noAccess .none g ss (p :: rest)).1.cache.get p = some ss.objs.length) := by
+  refine ⟨?_, ?_⟩
+  · intro r h
+    simp [svisit, scached, h, sfill]
+  · intro b h hb
+    simp [svisit, scached, h, hb, sfill, SSt.setGen, PMap.get_set_self]
+
+/-- **C04_reused_replaced (flag level).** `is_running()` on an object whose PID now belongs to a
+    process with another start time returns False and flags the PID, so that (`C04_start_cache`)
+    the next iteration drops the entry and (`C04_spec_visit`) yields a fresh object. -/
+theorem C04_isRunning_flags (ss : SSt) (r : Ref) (o : GObj) (b : Nat)
+    (hd : o.dead = false) (hs : ss.k.statStart o.pid = some b) (hne : b ≠ o.birth) :
+    (sIsRunning ss r o).2 = false ∧ o.pid ∈ (sIsRunning ss r o).1.flagged := by
+  have hb : (b == o.birth) = false := by simpa using hne
+  simp only [sIsRunning, hd, Bool.false_eq_true, if_false, hs, hb, addFlag, true_and]
+  split
+  · rename_i h; simpa using h
+  · simp
+
+/-- **C04_cache_clear.** `cache_clear()` empties the cache: whatever the history, the next
+    iteration finds no entry, so every object it yields is a fresh one. -/
+theorem C04_cache_clear (valid noAccess : List String) (ss : SSt) :
+    (sstep valid noAccess ss .cacheClear).1.cache = []
+    ∧ ∀ flagged listed p, (startCache (sstep valid noAccess ss .cacheClear).1.cache flagged listed).get p = none := by
+  refine ⟨rfl, ?_⟩
+  intro flagged listed p
+  rw [C04_start_cache]
+  simp [sstep, PMap.get]
+
+theorem mem_dedup (x : String) (l : List String) : x ∈ dedup l ↔ x ∈ l := by
+  induction l with
+  | nil => simp [dedup]
+  | cons y ys ih =>
+    simp only [dedup]
+    split
+    · rename_i hc
+      simp only [List.contains_eq_mem, decide_eq_true_eq] at hc
+      rw [ih]
+      constructor
+      · intro h; exact List.mem_cons_of_mem _ h
+      · intro h
+        rcases List.mem_cons.mp h with e | h'
+        · rw [e]; exact hc
+        · exact h'
+    · simp [ih]
+
+theorem nodup_dedup (l : List String) : (dedup l).Nodup := by
+  induction l with
+  | nil => simp [dedup]
+  | cons y ys ih =>
+    simp only [dedup]
+    split
+    · exact ih
+    · rename_i hc
+      simp only [List.contains_eq_mem, decide_eq_true_eq] at hc
+      exact List.nodup_cons.mpr ⟨fun h => hc ((mem_dedup y ys).mp h), ih⟩
+
+theorem visit_info (c : Cfg) (attrs : Attrs) (g : Nat) (listed : List Nat) :
+    ∀ (todo : List (Nat × Option Ref)) (s : St) (pmap : PMap) (r : Ref) (p : Nat) (info : Option (List String)),
+      (visit c attrs g listed s pmap todo).2 = .yield r p info →
+      info = match attrs with
+        | .none => none
+        | .names l => some (namesOf c l) := by
+  intro todo
+  induction todo with
+  | nil => intro s pmap r p info h; simp [visit] at h
+  | cons e rest ih =>
+    intro s pmap r p info h
+    obtain ⟨pid, oref⟩ := e
+    simp only [visit] at h
+    cases ha : addProc s pmap pid oref with
+    | none => rw [ha] at h; exact ih _ _ r p info h
+    | some x =>
+      obtain ⟨s1, pm1, r1⟩ := x
+      rw [ha] at h
+      simp only at h
+      cases hf : fillInfo c attrs r1 pid s1 with
+      | ok s2 info' =>
+        rw [hf] at h
+        simp only [Out.yield.injEq] at h
+        obtain ⟨_, _, rfl⟩ := h
+        cases attrs with
+        | none => simp only [fillInfo, Fill.ok.injEq] at hf; exact hf.2.symm
+        | names l =>
+          simp only [fillInfo] at hf
+          split at hf
+          · cases hf
+          · split at hf
+            · simp only [Fill.ok.injEq] at hf; exact hf.2.symm
+            · cases hf
+      | bad => rw [hf] at h; cases h
+      | nsp s2 => rw [hf] at h; exact ih _ _ r p info h
+
+/-- **C04_info_keys.** In every history, an object yielded by a generator created with
+    `attrs=None` carries no new `info`; one created with `attrs=[names…]` carries an `info` dict
+    whose keys are exactly the requested names, each once (all valid names for `attrs=[]`). -/
+theorem C04_info_keys (c : Cfg) (s : St) (g : Nat) (mid : List KEv) (gen : Gen) (hg : s.gens[g]? = some gen)
+    (r : Ref) (p : Nat) (info : Option (List String)) (h : (step c s (.next g mid)).2 = .yield r p info) :
+    match gen.attrs with
+    | .none => info = none
+    | .names l => ∃ ks, info = some ks ∧ (l ≠ [] → ks.Nodup ∧ ∀ x, x ∈ ks ↔ x ∈ l) ∧ (l = [] → ks = c.validNames) := by
+  have key : info = match gen.attrs with
+      | .none => none
+      | .names l => some (namesOf c l) := by
+    simp only [step, genNext, hg] at h
+    cases hst : gen.st with
+    | done => rw [hst] at h; cases h
+    | running pm todo listed => rw [hst] at h; exact visit_info c _ g listed todo _ pm r p info h
+    | fresh =>
+      rw [hst] at h
+      simp only at h
+      cases hp : prologue c s with
+      | mk s1 res =>
+        rw [hp] at h
+        cases res with
+        | none => cases h
+        | some x => obtain ⟨pm, todo, listed⟩ := x; exact visit_info c _ g listed todo _ pm r p info h
+  cases ha : gen.attrs with
+  | none => rw [ha] at key; exact key
+  | names l =>
+    rw [ha] at key
+    simp only at key ⊢
+    refine ⟨namesOf c l, key, ?_, ?_⟩
+    · intro hne
+      have : l.isEmpty = false := by cases l <;> simp_all
+      simp only [namesOf, this, Bool.false_eq_true, if_false]
+      exact ⟨nodup_dedup l, fun x => mem_dedup x l⟩
+    · intro he
+      simp [namesOf, he]
+
 /-! ## proved counterexamples (leads re-found through the model; each witness is replayed on the
     real code by the harness corpus) -/
 
@@ -436,5 +684,10 @@ theorem C04_reuse_check_skips_pid_counterexample :
         = [some (.yield 0 1 (some ["ppid"])), some (.yield 1 5 (some ["ppid"])),
            some (.yield 2 9 (some ["ppid"])), some .stop] := by
   decide
+
+/-- non-vacuity of `C04_refines_sequential`: the L19 history (iterate, PID 5 recycled,
+    `is_running()`, iterate) with a `cache_clear()` and an `attrs` iteration is sequential -/
+example : SeqHist cfg (St.init k159) (histL19 ++ [.cacheClear, .pids, .pidExists 5] ++ fullIter 2 (.names ["name", "pid"])) :=
+  seqHistB_sound cfg _ _ (by decide)
 
 end Psutil.C04
